@@ -3,8 +3,7 @@ import ApdVerif.Lemmas.Digits
 /-!
 # Helper lemmas for C15 (Cmp / CmpTotal)
 -/
-namespace Apd
-
+namespace Apd.C15L
 theorem cmpNat_range (a b : Nat) : cmpNat a b = -1 ∨ cmpNat a b = 0 ∨ cmpNat a b = 1 := by
   unfold cmpNat; split
   · simp
@@ -320,4 +319,4 @@ theorem signedScaled_nonneg (d : Dec) (e : Int) (h : d.neg = false) : 0 ≤ sign
   generalize d.coeff * 10 ^ (d.exp - e).toNat = q
   simp only [Bool.false_eq_true, if_false]; omega
 
-end Apd
+end Apd.C15L
